@@ -70,15 +70,14 @@ func charts(thorough bool) []*hx.ChartSpec {
 	var sels []chartSel
 	as := [][2]int{{0, 0}, {1, 0}, {2, 0}, {3, 0}, {1, 1}, {1, 2}}
 	if thorough {
-		// full product of ConfigMap a (7 variant/policy combinations) x Widget w (3), each also with Service s = v1,
-		// plus the Service and second-ConfigMap variants of the quick set
+		// full product of ConfigMap a (7 variant/policy combinations) x Widget w (3), plus the Service and second-ConfigMap variants
 		as = append(as, [2]int{2, 1})
 		for _, a := range as {
 			for _, w := range []int{0, 1, 2} {
-				sels = append(sels, chartSel{A: a[0], AP: a[1], W: w}, chartSel{A: a[0], AP: a[1], W: w, S: 1})
+				sels = append(sels, chartSel{A: a[0], AP: a[1], W: w})
 			}
 		}
-		sels = append(sels, chartSel{S: 2}, chartSel{A: 2, W: 2, S: 2}, chartSel{A: 1, S: 2}, chartSel{A: 1, B: 1}, chartSel{A: 2, W: 1, B: 1})
+		sels = append(sels, chartSel{S: 1}, chartSel{S: 2}, chartSel{A: 1, W: 1, S: 1}, chartSel{A: 2, W: 2, S: 2}, chartSel{A: 1, S: 2}, chartSel{A: 1, B: 1}, chartSel{A: 2, W: 1, B: 1})
 	} else {
 		// every variant of every slot, with the other slots at absent and at v1
 		for _, a := range as {
